@@ -16,7 +16,7 @@ RULE = ("labelled digraphs with at least one cycle (self-loops, 2-cycles, longer
         "components) on 1-4 commands enumerated (quick: sampled), 5-8 random; edge realisation in {direct, list, nested list, mixed}; "
         "probe library and real EEMS commands; distinct by (n, canonical cycle structure: self-loop / 2-cycle / longer, has-tail, "
         "has-acyclic-part, realisation, library)")
-REQUIRED_COUNTERS = ["cyclic_programs_run", "recursive_model_errors_seen", "run_depth_observations"]
+REQUIRED_COUNTERS = ["cyclic_programs_run", "recursive_model_errors_seen", "run_depth_observations", "api_built_programs"]
 EXHAUSTIVE = {"thorough": False}
 EXHAUSTIVE_NOTE = "thorough tier enumerates every cyclic labelled digraph on 1-4 commands (64 839 edge sets) in one realisation each plus random realisations"
 ASSUMPTIONS = ["whether commands outside the cycle executed before the rejection is not judged", "lineno of the error: any value"]
@@ -76,7 +76,7 @@ def cases(ctx):
             if ctx.mine(idx) and has_cycle(n, edges):
                 yield {"n": n, "edges": [list(e) for e in edges], "real": rng.choice(["direct", "list", "nested", "mixed", "mixed"]),
                        "lib": "eems" if idx % 5 == 0 else "probe", "order": rng.randrange(10 ** 6), "multiline": idx % 3 == 0, "dupe": idx % 4 == 1,
-                       "sorted_order": idx % 3 == 0 and idx % 2 == 0}
+                       "sorted_order": idx % 3 == 0 and idx % 2 == 0, "api": idx % 5 == 2, "noout": idx % 7 == 3}
             idx += 1
     for i in range(ctx.n(300, 20000)):
         n = rng.randint(5, 8)
@@ -90,7 +90,7 @@ def cases(ctx):
             edges.add((a, b))
         yield {"n": n, "edges": [list(e) for e in sorted(edges)], "real": rng.choice(["direct", "list", "nested", "mixed"]),
                "lib": rng.choice(["probe", "probe", "eems"]), "order": rng.randrange(10 ** 6), "multiline": rng.random() < 0.4, "dupe": rng.random() < 0.3,
-               "sorted_order": rng.random() < 0.3}
+               "sorted_order": rng.random() < 0.3, "api": rng.random() < 0.25, "noout": rng.random() < 0.2}
 
 
 def _layout(line, multi):
@@ -142,7 +142,11 @@ def build_text(case):
             else:
                 half = max(1, len(outs) // 2)
                 args.append("LL = [[%s], [%s]]" % (", ".join(outs[:half]), ", ".join(outs[half:])) if len(outs) > 1 else "N3 = [[[%s]]]" % outs[0])
-            lines.append("N%d = Op(%s)" % (i, ", ".join(args)))
+            if case.get("noout") and mode in ("direct", "list"):
+                # a command class without an output declaration, referenced through typed result parameters
+                lines.append("N%d = NoOut(%s)" % (i, "A = %s" % outs[0] if len(outs) == 1 else "L = [%s]" % ", ".join(outs)))
+            else:
+                lines.append("N%d = Op(%s)" % (i, ", ".join(args)))
         libs = ("vprobe",)
     else:
         lines.append('Leaf = EEMSRead(InFileName = "in.csv", InFieldName = "X0")')
@@ -166,6 +170,15 @@ def build_text(case):
     return "\n".join(_layout(ln, multi) for ln in lines), libs
 
 
+def _plain(v):
+    from mpilot.arguments import Argument
+    if isinstance(v, Argument):
+        v = v.value
+    if isinstance(v, list):
+        return [_plain(x) for x in v]
+    return v
+
+
 def run_case(ctx, case):
     from mpilot.program import Program
     text, libs = build_text(case)
@@ -174,10 +187,17 @@ def run_case(ctx, case):
         with open(d + "/in.csv", "w") as f:
             f.write("X0\n1\n2\n3\n")
     st = structure(case["n"], [tuple(e) for e in case["edges"]])
-    ctx.feature((case["n"] if case["n"] <= 4 else "5-8", st, case["real"], case["lib"], bool(case.get("multiline")), bool(case.get("dupe")), bool(case.get("sorted_order"))))
+    ctx.feature((case["n"] if case["n"] <= 4 else "5-8", st, case["real"], case["lib"], bool(case.get("multiline")), bool(case.get("dupe")), bool(case.get("sorted_order")), bool(case.get("api")), bool(case.get("noout"))))
     ctx.count("cyclic_programs_run")
     try:
         prog = Program.from_source(text, libraries=libs, working_dir=d)
+        if case.get("api"):
+            # the same program rebuilt through add_command (no line numbers anywhere)
+            ctx.count("api_built_programs")
+            src = prog
+            prog = Program(libraries=libs, working_dir=d)
+            for name, cmd in src.commands.items():
+                prog.add_command(type(cmd), name, {a.name: _plain(a.value) for a in cmd.arguments})
     except Exception as e:
         ctx.note_inconclusive("cyclic program did not load: %s" % repr(e)[:200])
         return
